@@ -252,10 +252,13 @@ var nonReadingTags = map[string]bool{"form": true, "input": true, "button": true
 	"noscript": true, "svg": true, "object": true, "embed": true, "applet": true, "iframe": true}
 
 // hiddenClass: "" visible; "hidden:<how>" for non-rendered; "nonreading:<tag>" for form controls etc.
-func hiddenClass(n *html.Node) (string, bool) {
+func hiddenClass(n *html.Node) (string, bool) { return hiddenClassFrom(n.Parent) }
+
+// hiddenClassFrom: the same for a node whose innermost enclosing element is `from`
+func hiddenClassFrom(from *html.Node) (string, bool) {
 	insideTableOrFigure := false
 	cls := ""
-	for p := n.Parent; p != nil; p = p.Parent {
+	for p := from; p != nil; p = p.Parent {
 		if p.Type != html.ElementNode {
 			continue
 		}
@@ -571,7 +574,7 @@ func oracleC07(rep *Report, x *distilled, replay interface{}) (deep int, partial
 				}, &es)
 				for _, e := range es {
 					if visibleOnly {
-						if c, _ := hiddenClass(e.FirstChild); e.FirstChild != nil && strings.HasPrefix(c, "hidden:") {
+						if c, _ := hiddenClassFrom(e); strings.HasPrefix(c, "hidden:") {
 							continue
 						}
 					}
